@@ -167,12 +167,93 @@ Theorem C13_file_always_complete : forall P path umask ops st,
 Proof. exact file_always_complete. Qed.
 Print Assumptions C13_file_always_complete.
 
+(* Daemon start-up (WalletManager.from_lbrynet_config): a wallet file whose accounts are stored encrypted and that has
+   no (or a null) encrypt-on-disk preference -- a file older than the preference -- comes up with the preference ON ... *)
+Theorem C13_start_enables_encryption : forall P path umask ts rnd pid st st' w0,
+  reload P (m_img st) = Some w0 -> is_locked w0 = true -> pref_is_none w0 = true ->
+  step P path umask (MStart ts rnd pid) st = (OTrue, st') ->
+  pref_on (m_w st') = true.
+Proof. exact start_enables_encryption. Qed.
+Print Assumptions C13_start_enables_encryption.
+
+(* ... so that after unlocking it with a non-blank password every later save writes the sealed image
+   (seed and private key only as outputs of E), exactly as for a wallet encrypted by Wallet.encrypt *)
+Theorem C13_start_unlock_save_sealed : forall P path umask ts rnd pid st st' w0 (pw : bytes) ts' rnd',
+  reload P (m_img st) = Some w0 -> is_locked w0 = true -> pref_is_none w0 = true ->
+  step P path umask (MStart ts rnd pid) st = (OTrue, st') ->
+  fst (unlock P pw (m_w st')) = UTrue -> pw <> [] ->
+  let w2 := snd (unlock P pw (m_w st')) in
+  fst (save_dict P ts' rnd' w2) = public_image P (w_name w2) (w_prefs w2) rnd' (map (seal P pw) (w_accounts w2)).
+Proof. exact start_unlock_save_sealed. Qed.
+Print Assumptions C13_start_unlock_save_sealed.
+
 (* pack then unpack with the same password gives back the JSON text of the wallet (any 16-byte salt/iv) *)
 Theorem C13_pack_unpack : forall P, DE P -> B64 P -> ZZ P ->
   forall w pw iv, len16 iv -> is_locked w = false ->
   exists packed, pack P pw iv w = Ok packed /\ unpack P pw packed = Ok (to_json P w).
 Proof. exact pack_unpack. Qed.
 Print Assumptions C13_pack_unpack.
+
+(* Wallet.merge's choice between plain JSON (password None) and an encrypted payload (any string): a payload packed
+   with ANY password -- pw = [] is the empty password -- comes back as the wallet's JSON when merged with that password *)
+Theorem C13_merge_payload_roundtrip : forall P, DE P -> B64 P -> ZZ P ->
+  forall w pw iv, len16 iv -> is_locked w = false ->
+  exists packed, pack P pw iv w = Ok packed /\ merge_payload P (Some pw) packed = Ok (to_json P w)
+                 /\ merge_payload P None (to_json P w) = Ok (to_json P w).
+Proof. exact merge_payload_roundtrip. Qed.
+Print Assumptions C13_merge_payload_roundtrip.
+
+(* why the temp file name carries the pid: with ONE shared temp file (pidA = pidB) a second writer that dies right after
+   opening its temp file while the first is between fsync and rename makes the first rename an EMPTY file onto the wallet;
+   with different pids the same schedule leaves the first writer's complete content *)
+Example C13_ex_shared_temp_file_not_atomic :
+  let path := [byte_of_N 119] in
+  let t := fs_set path (Some (mkFile [byte_of_N 1] 384)) (fun _ => None) in
+  (fdata (two_writers 18 path 7 7 [byte_of_N 2] [byte_of_N 3] 5 1 0 t path),
+   fdata (two_writers 18 path 7 8 [byte_of_N 2] [byte_of_N 3] 5 1 0 t path))
+  = (Some [], Some [byte_of_N 2]).
+Proof. vm_compute. reflexivity. Qed.
+
+(* start-up of a file with encrypted accounts and no encrypt-on-disk preference: the preference comes up ON *)
+Example C13_ex_start_legacy_file :
+  match lock toy [iv_a; iv_b; iv_c] ex_wallet with
+  | Ok w1 =>
+      let img := fst (wallet_to_dict toy None [] w1) in
+      let st := mkState default_wallet (fun _ => None) (Some img) in
+      match reload toy (Some img) with
+      | Some w0 => (pref_on w0, is_locked w0, pref_is_none w0,
+                    pref_on (m_w (snd (step toy [byte_of_N 119] 18 (MStart 5 [] 9) st))))
+      | None => (true, false, false, false)
+      end
+  | Err _ => (true, false, false, false)
+  end = (false, true, true, true).
+Proof. vm_compute. reflexivity. Qed.
+
+Example C13_ex_merge_empty_password :
+  match pack toy [] iv_a ex_wallet with
+  | Ok p => merge_payload toy (Some []) p = Ok (to_json toy ex_wallet)
+  | Err _ => False end.
+Proof. vm_compute. reflexivity. Qed.
+
+(* A sync payload written by ANOTHER writer of the same format with any scrypt parameters n r p in its 's:n:r:p:' header
+   (Wallet.pack always writes 8192:16:1) is opened by its own password: the reader derives the key with the parameters the
+   header states; merge restores the JSON text. *)
+Theorem C13_foreign_payload_merges : forall P, DE P -> B64 P -> ZZ P ->
+  forall pw js iv n r p, len16 iv ->
+  merge_payload P (Some pw) (foreign_payload P pw (zc P js) iv n r p) = Ok js.
+Proof. exact foreign_payload_merges. Qed.
+Print Assumptions C13_foreign_payload_merges.
+
+(* Two processes (different pids, hence different temp files '<wallet>.tmp.<pid>') save the same wallet file; their
+   operations interleave in ANY order (for either outcome of each one's os.path.exists and any mode it read), and either
+   process may die before any of its operations or inside its write: the wallet file always holds its previous content
+   or the complete content of one of the two saves. *)
+Theorem C13_two_writers_atomic : forall umask path pid1 pid2 d1 d2 s1 m1 s2 m2 t t',
+  pid1 <> pid2 ->
+  inter umask (wops path (temp_path path pid1) d1 s1 m1) (wops path (temp_path path pid2) d2 s2 m2) t t' ->
+  fdata (t' path) = fdata (t path) \/ fdata (t' path) = Some d1 \/ fdata (t' path) = Some d2.
+Proof. exact two_writers_atomic. Qed.
+Print Assumptions C13_two_writers_atomic.
 
 (* ---- non-vacuity: a toy cipher satisfies the premises, and concrete wallets exercise each statement ---- *)
 Example C13_ex_premises : DE toy /\ B64 toy /\ B64nil toy /\ ZZ toy.
